@@ -10,4 +10,7 @@ import PGV.Props.C16
 #print axioms PGV.Props.C16.C16_unknown_continues
 #print axioms PGV.Props.C16.C16_type_marker_not_printed
 #print axioms PGV.Props.C16.C16_look_alike_types_distinct
+#print axioms PGV.Props.C16.C16_setrule_last_wins
+#print axioms PGV.Props.C16.C16_setrule_other_key
+#print axioms PGV.Props.C16.C16_setrule_order_indep
 #print axioms PGV.Props.C16.C16_rule_table
